@@ -52,8 +52,8 @@ def r_parts(tier):
                     continue  # virtual node over a dataset needs an attribute slot: nothing valid here
                 if big and n >= 3:
                     for k2 in (0, 1, 2, 3, 4):
-                        if k1 == 2 and k2 == 3 and not has_a_attr:
-                            continue
+                        if k2 == 3 and not has_a_attr and (k1 in (1, 2) or (k1 == 0 and k0 == 2)):
+                            continue  # a virtual node needs a group below it (or an attribute slot): nothing valid here
                         parts.append(Part(H, "R", {"n": n, "u": u, "fix": {"0_0": k0, "1_0": k1, "2_0": k2}}, ct, 60, ob, weight=2))
                 else:
                     parts.append(Part(H, "R", {"n": n, "u": u, "fix": {"0_0": k0, "1_0": k1}}, ct, 60, ob, weight=2))
